@@ -278,7 +278,7 @@ func (c *cors) handle(node types.Node, wh http.Header, r *http.Request) {
 		}
 		if c.allowHeadersString != "" {
 			wh.Set(header.AccessControlAllowHeaders, c.allowHeadersString)
-			wh.Add(header.Vary, header.AccessControlAllowHeaders)
+			wh.Add(header.Vary, header.AccessControlRequestHeaders) // Vary 指定的应该是请求报头
 		}
 
 		// Access-Control-Max-Age
@@ -297,7 +297,9 @@ func (c *cors) handle(node types.Node, wh http.Header, r *http.Request) {
 		allowOrigin = origin
 	}
 	wh.Set(header.AccessControlAllowOrigin, allowOrigin)
-	wh.Add(header.Vary, header.AccessControlAllowOrigin)
+	if !c.anyOrigins { // 返回的内容取决于请求报头 Origin
+		wh.Add(header.Vary, header.Origin)
+	}
 
 	// Access-Control-Allow-Credentials
 	if c.AllowCredentials {
